@@ -273,6 +273,7 @@ def run(chk: Check, only_numeric: bool = False) -> None:
         run_env_link(chk, ix)
         run_defaults_chain(chk, ix)
         run_silent_errors(chk, ix, funcs, sites)
+        run_specializer_arg_order(chk, ix)
         pass_order(chk, ix)
 
 
@@ -603,3 +604,69 @@ def run_operator_names(chk: Check, sites, only_numeric: bool) -> None:
             r.violation(key, where, f"the plain operator `{op}` is bound to the in-place function {cname}: `a {op} b` would modify `a`")
         else:
             r.ok(key, where)
+
+
+def run_specializer_arg_order(chk: Check, ix) -> None:
+    """R05.11: a specialiser that inlines a loop translates the call's other arguments before the loop."""
+    from ..cfg import CFG, call_name
+    r = chk.rule("R05.11", "Python evaluates every argument of a call before the callee does anything; a specialiser in mypyc/irbuild/specialize.py that replaces a builtin call by an inlined loop (comprehension_helper) therefore translates the call's remaining arguments (`expr.args[k]`, k >= 1: the start value of sum(), the default of next()) before it emits the loop, never after it or inside it: otherwise the argument's side effects and exceptions happen late, conditionally, or not at all", floor=2)
+    mod = ix.module("mypyc.irbuild.specialize")
+    n = 0
+    for f in sorted(mod.functions.values(), key=lambda f: f.node.lineno):
+        own = [x for x in walk_own(f.node)]
+        helpers = [c for c in own if isinstance(c, ast.Call) and call_name(c) == "comprehension_helper"]
+        if not helpers:
+            continue
+        # locals standing for a later argument of the specialised call
+        later: dict[str, int] = {}
+
+        def arg_index(e: ast.expr) -> int | None:
+            if isinstance(e, ast.Subscript) and isinstance(e.value, ast.Attribute) and e.value.attr == "args" and isinstance(e.slice, ast.Constant) and isinstance(e.slice.value, int):
+                return e.slice.value
+            if isinstance(e, ast.Name):
+                return later.get(e.id)
+            if isinstance(e, ast.IfExp):
+                a, b = arg_index(e.body), arg_index(e.orelse)
+                return a if a is not None else b
+            return None
+        grow = True
+        while grow:
+            grow = False
+            for a in own:
+                if isinstance(a, ast.Assign) and len(a.targets) == 1 and isinstance(a.targets[0], ast.Name) and a.targets[0].id not in later:
+                    k = arg_index(a.value)
+                    if k is not None and k >= 1:
+                        later[a.targets[0].id] = k
+                        grow = True
+        g = CFG(f.node)
+        hn = [nd for nd in g.nodes if any(c is helpers[0] for c in nd.calls())]
+        # translations of later arguments anywhere in the function, including nested loop bodies
+        for c in ast.walk(f.node):
+            if not (isinstance(c, ast.Call) and call_name(c) == "accept" and c.args):
+                continue
+            k = arg_index(c.args[0])
+            if k is None or k < 1:
+                continue
+            n += 1
+            key = f"{f.qualname}: argument {k} of the specialised call is translated before the inlined loop"
+            nested = not any(c is x for x in own)
+            cn = [nd for nd in g.nodes if any(x is c for x in nd.calls())]
+            if nested:
+                r.violation(key, f.loc(c), f"`{norm(c)}` sits in a nested function that the loop helper calls: the argument is evaluated once per iteration (or never)")
+            elif hn and cn and cn[0] in g.reachable(hn, labels_excluded=("exc",)):
+                r.violation(key, f.loc(c), f"`{norm(c)}` comes after comprehension_helper(...) (line {helpers[0].lineno}): CPython evaluates the argument before the iteration starts, the compiled code after it (and only on the path that needs the value)")
+            else:
+                r.ok(key, f.loc(c))
+    if n < 2:
+        raise AnalysisError(f"only {n} later-argument translations found in loop-inlining specialisers")
+
+
+def walk_own(fn: ast.AST):
+    """Nodes of a function body without descending into nested function definitions."""
+    stack = list(ast.iter_child_nodes(fn))
+    while stack:
+        n = stack.pop()
+        yield n
+        if isinstance(n, (ast.FunctionDef, ast.AsyncFunctionDef, ast.Lambda)):
+            continue
+        stack.extend(ast.iter_child_nodes(n))
